@@ -14,18 +14,41 @@ open Mdsort Mdsort.Model
 
 /-- `-d` in maildir mode: whatever the configuration, the messages and the fault plan are, the run
 issues no mutating call (no create, write, rename, unlink, utimensat, mkdir, rmdir) and starts no
-process for an action.
+process for an action: a `fork` occurs only if some rule tree has a `command` CONDITION
+(`Proofs.confHasCommand conf`; conditions are evaluated under `-d` exactly as otherwise - `expr_eval_command`
+runs the program -, actions are never executed: `C05_dry_runs_no_action`).
 
-Scope (audit au1): "`c ≠ .fork`" holds because the world model has no call for `command` CONDITIONS - `processMessage`
-evaluates them with the constant oracle `command := fun _ => -1` (also `isDir := false`, `fileTime := none`; `orc :
-EvalOracles` only quantifies over regex, `strptime` and zone names).  mdsort itself does run the program of a `command`
-condition under `-d` (replayed: `match command { "touch" ".../ran" } move "dst"` with `-d` creates `ran`; the property text
-only excludes exec ACTIONS).  So for configurations with `command` / `isdirectory` / file-date conditions this theorem, and
-every world-level theorem of C01-C06, speaks about a run in which those conditions are errors / false. -/
+(Audit au1 noted that before package p4 "`c ≠ .fork`" held only because the world model had no call for `command` CONDITIONS -
+they were evaluated with the constant oracle -1 - while mdsort does run the program of a `command` condition under `-d`.  The
+conditions are now evaluated inside the run, `Model.evalP`; the statement says when a `fork` occurs, and the world-level theorems
+of C01-C06 speak about runs in which those conditions are answered by the operating system.) -/
 theorem C05_dry_no_mutation (env : PEnv) (orc : EvalOracles) (ok : Bool) (conf : List ConfBlock) (files : Files) (input : Bytes)
     (w : World) (plan : Plan) (hd : env.dryrun = true) (hm : env.stdinMode = false) :
-    ∀ c ∈ Proofs.callsOf plan (mainP env orc ok conf files input) w, c.mutating = false ∧ c ≠ .fork :=
+    ∀ c ∈ Proofs.callsOf plan (mainP env orc ok conf files input) w,
+      c.mutating = false ∧ (c = .fork → Proofs.confHasCommand conf = true) :=
   Proofs.dryrun_no_mutation env orc ok conf files input w plan hd hm
+
+/-- In particular a configuration without `command` condition starts no process under `-d` (the statement as it was
+before evaluation was part of the world model). -/
+theorem C05_dry_no_fork (env : PEnv) (orc : EvalOracles) (ok : Bool) (conf : List ConfBlock) (files : Files) (input : Bytes)
+    (w : World) (plan : Plan) (hd : env.dryrun = true) (hm : env.stdinMode = false)
+    (hc : Proofs.confHasCommand conf = false) :
+    ∀ c ∈ Proofs.callsOf plan (mainP env orc ok conf files input) w, c.mutating = false ∧ c ≠ .fork := by
+  intro c hcm
+  obtain ⟨h1, h2⟩ := C05_dry_no_mutation env orc ok conf files input w plan hd hm c hcm
+  exact ⟨h1, fun h => by rw [h2 h] at hc; cases hc⟩
+
+/-- **No exec action runs under `-d`**: once the rules have decided (whatever the verdict is: any action list, with
+any number of `exec` actions), the rest of the processing of the message is closing its descriptor - no `fork`, nothing
+else.  The only processes a dry run starts are those of `command` conditions during evaluation
+(`C03_evaluation_calls`). -/
+theorem C05_dry_runs_no_action (env : PEnv) (md : Maildir) (name : Bytes) (st : MainSt) (ms : MsgSt) (v : Proofs.Verdict)
+    (hd : env.dryrun = true) :
+    Proofs.World.Calls Proofs.IsClose (Proofs.afterVerdict env md name st ms v) :=
+  (Proofs.Own.dry_afterVerdict env md name st ms v hd).1
+
+example : ({ Proofs.examplePEnv with dryrun := true } : PEnv).dryrun = true := rfl
+example : Proofs.confHasCommand [] = false := rfl
 
 /-- `-n`: the whole run is opening and closing the configuration file. -/
 theorem C05_syntax_nothing (env : PEnv) (orc : EvalOracles) (ok : Bool) (conf : List ConfBlock) (files : Files) (input : Bytes)
@@ -131,16 +154,24 @@ theorem C05_args_syntax_nothing (permute : Bool) (args : List Bytes) (raw : RawE
     rw [h2]
     exact C05_syntax_nothing (Proofs.Opts.runEnv env o home tmpdir confpath) orc ok conf files input w plan hn
 
-/-- `-d` on the command line (without `-`): no call of the run changes anything or starts a process
-(`C05_dry_no_mutation` for the run from `argv`). -/
+/-- `-d` on the command line (without `-`): no call of the run changes anything, and a process is started only for a
+`command` CONDITION of the configuration the run reads (`C05_dry_no_mutation` for the run from `argv`: a `fork` occurs only
+when the run is `mainP` of a configuration with `Proofs.confHasCommand`; never for an action). -/
 theorem C05_args_dry_no_mutation (permute : Bool) (args : List Bytes) (raw : RawEnv) (env : PEnv) (orc : EvalOracles)
     (rxOk : Pat → Bool) (confText : Bytes) (files : Files) (input : Bytes) (w : World) (plan : Plan) (o : Opts)
     (h : parseArgs permute args = .ok o) (hd : o.dryrun = true) (hm : o.stdinMode = false) :
-    ∀ c ∈ Proofs.callsOf plan (mainArgs permute args raw env orc rxOk confText files input) w, c.mutating = false ∧ c ≠ .fork := by
+    ∀ c ∈ Proofs.callsOf plan (mainArgs permute args raw env orc rxOk confText files input) w,
+      c.mutating = false ∧
+      (c = .fork → ∃ home tmpdir confpath ok conf,
+        mainArgs permute args raw env orc rxOk confText files input =
+          mainP (Proofs.Opts.runEnv env o home tmpdir confpath) orc ok conf files input ∧
+        Proofs.confHasCommand conf = true) := by
   rcases Proofs.Opts.mainArgs_accepted permute args raw env orc rxOk confText files input o h with h1 | ⟨home, tmpdir, confpath, ok, conf, _, h2⟩
   · rw [h1, (Proofs.Opts.ret_run plan _ w).2]; intro c hc; cases hc
-  · rw [h2]
-    exact C05_dry_no_mutation (Proofs.Opts.runEnv env o home tmpdir confpath) orc ok conf files input w plan hd hm
+  · intro c hc
+    rw [h2] at hc
+    have := C05_dry_no_mutation (Proofs.Opts.runEnv env o home tmpdir confpath) orc ok conf files input w plan hd hm c hc
+    exact ⟨this.1, fun hf => ⟨home, tmpdir, confpath, ok, conf, h2, this.2 hf⟩⟩
 
 /-- `-v` changes nothing but stderr: two command lines whose accepted options differ in the verbosity only are the same
 program (the correspondence compares the final trees and exit statuses of runs with and without `-v`). -/
@@ -174,18 +205,24 @@ complete description of a call `c` issued when the calls and results so far are 
   create returned (`dry_IsFd`); `unlinkat` on such a stream of a name its `readdir` returned; `rmdir` of such a
   `root`, of its `new`, or of the empty path (the cleanup after a failed `mkdtemp`, which names nothing);
 * `read` and `close`;
-* nothing else: no `renameat`, `unlink`, `utimensat`, `mkostemp`, `fprintf`, `fork`, `waitpid`, `stat`, and no
-  `opendir` of a configured maildir or of a destination. -/
+* the calls of the conditions that ask the operating system: `open("/dev/null")`, `fork`, `waitpid` only if some rule
+  tree has a `command` condition (`cm = Proofs.confHasCommand conf`), `stat` only if some has an `isdirectory` or a
+  file-time `date` condition (`sa = Proofs.confHasStat conf`);
+* nothing else: no `renameat`, `unlink`, `utimensat`, `mkostemp`, `fprintf`, and no
+  `opendir` of a configured maildir or of a destination; no process for an action. -/
 
 /-- `-d -`, whatever the calls return (hence under every fault plan and every interleaving with other
 processes), whatever the configuration, the registry and the input are: every call of the run is one of
-the calls listed above.  (Audit au1: "the run" is the model's - the spool is walked with fuel 64 and cleaned with `loop 64`;
-an oracle whose `readdir` returns more than that many names makes the model stop where mdsort would continue.  Under `runPlan`
-- the spool holds one file - the fuel suffices: `C04_stdin_spool_removed` could not hold otherwise.) -/
+the calls listed above.  (Audit au1 / package p12: "the run" is the model's - the spool is walked with fuel `64 + env.extraFuel` and cleaned
+with a loop of the same allowance; an oracle whose `readdir` returns more than that many names makes the model stop where
+mdsort would continue - the final state then has `fuelOut = true` (no longer silent).  Covered: every `env`, i.e. every
+allowance; a run that ends with `fuelOut = false` is the run of the unbounded loops (`C04_fuel_irrelevant`).  Under
+`runPlan` - the spool holds one file - the standard fuel suffices: `C04_stdin_spool_removed` could not hold otherwise.) -/
 theorem C05_dry_stdin (env : PEnv) (orc : EvalOracles) (ok : Bool) (conf : List ConfBlock) (files : Files) (input : Bytes)
     (hd : env.dryrun = true) (hm : env.stdinMode = true) (orcl : Nat → Call → Res) :
     ∀ i c r, (runOracle orcl (mainP env orc ok conf files input) 0 []).2[i]? = some (c, r) →
-      Proofs.DrySpoolCall env ((runOracle orcl (mainP env orc ok conf files input) 0 []).2.take i) c :=
+      Proofs.DrySpoolCall env (Proofs.confHasCommand conf) (Proofs.confHasStat conf)
+        ((runOracle orcl (mainP env orc ok conf files input) 0 []).2.take i) c :=
   Proofs.dry_stdin_calls env orc ok conf files input hd hm orcl
 
 /-- The same for the execution on the abstract file system under any fault plan (`tr` = the calls the
@@ -193,16 +230,18 @@ run added to the trace of the world). -/
 theorem C05_dry_stdin_plan (env : PEnv) (orc : EvalOracles) (ok : Bool) (conf : List ConfBlock) (files : Files) (input : Bytes)
     (w : World) (plan : Plan) (hd : env.dryrun = true) (hm : env.stdinMode = true) :
     ∀ i c r, ((runPlan plan (mainP env orc ok conf files input) w 0 []).2.1.trace.drop w.trace.length)[i]? = some (c, r) →
-      Proofs.DrySpoolCall env (((runPlan plan (mainP env orc ok conf files input) w 0 []).2.1.trace.drop w.trace.length).take i) c :=
+      Proofs.DrySpoolCall env (Proofs.confHasCommand conf) (Proofs.confHasStat conf)
+        (((runPlan plan (mainP env orc ok conf files input) w 0 []).2.1.trace.drop w.trace.length).take i) c :=
   Proofs.dry_stdin_calls_plan env orc ok conf files input w plan hd hm
 
-/-- (Audit au1: a reading lemma - the hypothesis `DrySpoolCall env tr c` contains the conclusion, this is its projection
+/-- (Audit au1: a reading lemma - the hypothesis `DrySpoolCall env cm sa tr c` contains the conclusion, this is its projection
 `DrySpoolCall.kinds`; the statement about runs is `C05_dry_stdin`.)
-Read for the mutating calls only: no process is started, and a mutating call is the `mkdtemp` of the
-spool template, the `mkdir` of the spool's `new`, an exclusive create or an `unlinkat` in the spool, a
+Read for the mutating calls only: a process is started only for a `command` condition, and a mutating call is the
+`mkdtemp` of the spool template, the `mkdir` of the spool's `new`, an exclusive create or an `unlinkat` in the spool, a
 `write` to the spool file, or the `rmdir` of the spool. -/
-theorem C05_dry_stdin_mutating (env : PEnv) (tr : List (Call × Res)) (c : Call) (h : Proofs.DrySpoolCall env tr c) :
-    c ≠ .fork ∧ (c.mutating = true →
+theorem C05_dry_stdin_mutating (env : PEnv) (cm sa : Bool) (tr : List (Call × Res)) (c : Call)
+    (h : Proofs.DrySpoolCall env cm sa tr c) :
+    (c = .fork → cm = true) ∧ (c.mutating = true →
       (∃ t, c = .mkdtemp t ∧ pathjoin PATH_MAX env.tmpdir (ofString "mdsort-XXXXXXXX") = some t) ∨
       (∃ p, c = .mkdir p ∧ Proofs.dry_IsNew tr p) ∨
       (∃ d n, c = .openExcl d n ∧ Proofs.dry_IsDir tr d) ∨
@@ -233,7 +272,7 @@ theorem C05_syntax_stdin (env : PEnv) (orc : EvalOracles) (ok : Bool) (conf : Li
 
 /-- Non-vacuity of `C05_dry_stdin_mutating` (added by audit au1): at the start of the example run the `mkdtemp` of the spool
 template is a `DrySpoolCall`, and it is mutating. -/
-example : Proofs.DrySpoolCall { Proofs.StdinExample.env0 with dryrun := true } []
+example : Proofs.DrySpoolCall { Proofs.StdinExample.env0 with dryrun := true } false false []
       (.mkdtemp (Proofs.World.spoolRoot { Proofs.StdinExample.env0 with dryrun := true })) ∧
     (Call.mkdtemp (Proofs.World.spoolRoot { Proofs.StdinExample.env0 with dryrun := true })).mutating = true :=
   ⟨show pathjoin PATH_MAX ({ Proofs.StdinExample.env0 with dryrun := true } : PEnv).tmpdir (ofString "mdsort-XXXXXXXX") =
